@@ -166,6 +166,7 @@ def make_cases(run):
         valid.append(G.gen_valid(rng, maxpus=rng.choice([16, 64, 256, 512])))
     cases += [("valid", d) for d in valid]
     cases += [("untyped", G.gen_untyped(rng)) for _ in range(nunt)]
+    cases += [("interleave-spec", d) for d in G.gen_interleave_spec(rng, 30 if quick else 400)]
     pool = valid[:2000] + G.HANDMADE + G.boundary_cases()[:40]
     cases += [("mutated", G.mutate(rng, rng.choice(pool))) for _ in range(nmut)]
     cases += [("arbitrary", G.arbitrary(rng)) for _ in range(narb)]
@@ -312,6 +313,38 @@ def judge(run, cases, model, cres, exe, drv, limit):
                 run.bump("uninit-arity-same-outcome-both-fills")
 
 
+def spec_interleaving(run, cases, cres):
+    """SPEC evaluation on the implementation, independent of the model: for canonical descriptions with a
+    type-based indexes= attribute the os_index layout is computed in Python from the documented meaning
+    (gen/synthetic_gen.py spec_expected) and compared with what the library loaded."""
+    TYPE_NO = {"pack": 1, "die": 2, "core": 3, "l2": 6, "l3": 7}
+    for idx, (kind, desc) in enumerate(cases):
+        exp = G.spec_expected(desc)
+        c = cres.get(str(idx))
+        if exp is None or c is None or not c.get("loaded"):
+            continue
+        lv = dict((n, a) for n, a in G.spec_parse(desc)[0])
+        bad = None
+        if exp[0] == "pu":
+            for name, sets in exp[1].items():
+                if name == "numa":
+                    got = sorted(tuple(sorted(int(x) for x in l.split()[4].split(","))) for l in c["objs"] if l.startswith("M "))
+                elif name == "die" and "pack" in lv and lv["die"] == 1:
+                    continue          # merged into the Package level by the core
+                else:
+                    got = sorted(tuple(sorted(int(x) for x in l.split()[4].split(","))) for l in c["objs"] if l.startswith("O %d " % TYPE_NO[name]))
+                if got != sets:
+                    bad = "level %s: PU os_index sets loaded %s..., documented meaning gives %s..." % (name, got[:3], sets[:3])
+                    break
+        else:
+            got = sorted((int(l.split()[1]), tuple(sorted(int(x) for x in l.split()[4].split(",")))) for l in c["objs"] if l.startswith("M "))
+            if got != exp[1]:
+                bad = "NUMA (os_index, PUs) loaded %s..., documented meaning gives %s..." % (got[:3], exp[1][:3])
+        run.bump("spec:interleaving:" + ("ok" if bad is None else "MISMATCH"))
+        if bad:
+            run.violation("spec:interleaving-order", "type-based index interleaving of %r is not the documented one: %s" % (desc, bad), replay_text(desc, bad))
+
+
 def wf_pass(run, cases, model, items):
     """C01 spec evaluation on what the synthetic backend builds: the canonical dump (harness/hwv_dump.h through
     C01's harness) of accepted descriptions goes through the verified checker wf_check and hwloc_topology_check()."""
@@ -393,6 +426,7 @@ def check(run, replay=None):
     for e in cres.pop("__errors__", []):
         run.violation("harness-error", "C harness failed outside a case: " + e[-200:], e, no_input=True)
     judge(run, cases, model, cres, exe, drv, limit)
+    spec_interleaving(run, cases, cres)
     wf_pass(run, cases, model, items)
     run.cov["rule"] = "one case = one description string; non-trivial = accepted by the model; loaded and compared object-by-object when <= %d objects" % limit
     run.cov["loaded_and_compared"] = sum(1 for i, m_, d in items if m_ == "l")
